@@ -80,8 +80,9 @@ func checkCompositeLiteral(
 		return nil
 	}
 
+	t = types.Unalias(t)
 	if ptr, ok := t.(*types.Pointer); ok {
-		t = ptr.Elem()
+		t = types.Unalias(ptr.Elem())
 	}
 
 	named, ok := t.(*types.Named)
@@ -140,8 +141,9 @@ func checkNewCall(
 		return nil
 	}
 
+	t = types.Unalias(t)
 	if ptr, ok := t.(*types.Pointer); ok {
-		t = ptr.Elem()
+		t = types.Unalias(ptr.Elem())
 	}
 
 	named, ok := t.(*types.Named)
@@ -210,6 +212,8 @@ func checkVarDeclaration(
 			if t == nil {
 				continue
 			}
+
+			t = types.Unalias(t)
 
 			// Skip pointer types - var p *Struct just creates a nil pointer, not an instance
 			if _, ok := t.(*types.Pointer); ok {
